@@ -2,6 +2,8 @@
 """Regenerates MANIFEST.json from driver/props/*.py (claimed) and properties.jsonl (the rest are not_applicable
 until their check exists)."""
 import json, os, sys, importlib
+sys.path.insert(0, os.path.join(os.path.dirname(os.path.abspath(__file__))))
+import levels
 VERIF = os.path.dirname(os.path.dirname(os.path.abspath(__file__)))
 sys.path.insert(0, os.path.join(VERIF, "driver"))
 props = [json.loads(l) for l in open(os.path.join(VERIF, "properties.jsonl"))]
@@ -19,8 +21,8 @@ for p in props:
             "evidence_file": "/verif/evidence/%s.json" % pid,
             "replay_cmd_template": "./check %s --replay {path}" % pid,
             "engine": "coq-proof+correspondence",
-            "level_claimed": {"category": "proof", "text": getattr(mod, "LEVEL_TEXT", ""), "design_ref": "DESIGN.md section 5, " + pid},
-            "level_note": getattr(mod, "LEVEL_NOTE", ""),
+            "level_claimed": {"category": "proof", "text": levels.TEXT.get(pid) or (getattr(mod, "LEVEL_TEXT", "") if len(getattr(mod, "LEVEL_TEXT", "")) > 20 else ""), "design_ref": "DESIGN.md section 5, " + pid},
+            "level_note": levels.COMMON_NOTE + (levels.NOTE.get(pid) or getattr(mod, "LEVEL_NOTE", "")),
             "technique": getattr(mod, "TECHNIQUE", "machine-checked proof in Coq 8.16 over a Gallina model + correspondence of the extracted model with the Go code"),
         })
     else:
